@@ -97,9 +97,257 @@ def expect_no_raise_or_same(vc, fnkey, paths, label='raise'):
             got = p.exc.cls if p.exc.cls is not None else '<symbolic>'
             if p.info.get('upstream_raise'):
                 continue
+            allowed = p.info.get('allowed_exc', {})
+            if got in allowed:
+                # an exception the contract allows under a stated condition: the path condition must imply it
+                vc.add('%s.%s-allowed-%s[%s]' % (short(fnkey), label, got, tag), p.pc, allowed[got], path=p)
+                continue
             ok = (exp == got)
             vc.add('%s.%s[%s]' % (short(fnkey), label, tag), p.pc, z3.BoolVal(ok), path=p,
                    info=dict(expected=exp, got=got))
         elif p.end in ('iter-end', 'return') and exp not in ('<none>', None) and p.info.get('in_iter'):
             vc.add('%s.%s-missing[%s]' % (short(fnkey), label, tag), p.pc, z3.BoolVal(False), path=p,
                    info=dict(expected=exp, got='no exception'))
+
+
+# ------------------------------------------------------------------------------------------------
+# richer symbolic packages: descriptor trees with resource / field lists
+
+def field_tree(it, hint):
+    from pyvc.api import Tree, SV, StrS
+    t = Tree(hint)
+    for key in ('name', 'type'):
+        v = SV(it.fresh('%s.%s' % (hint, key), StrS))
+        t.has[key] = True
+        t.init_has[key] = True
+        t.children[key] = v
+        t.init_children[key] = v
+    return t
+
+
+def resource_desc(it, hint, name=None):
+    """descriptor dict of one resource: name, schema{fields: opaque list of field dicts, ...}"""
+    from pyvc.api import Tree, SV, StrS, SymSeq, SymList, IntS
+    nm = name if name is not None else SV(it.fresh(hint + '.name', StrS))
+    t = Tree(hint)
+    t.has['name'] = True
+    t.init_has['name'] = True
+    t.children['name'] = nm
+    t.init_children['name'] = nm
+    cnt = [0]
+
+    def mk_schema(it_, node, key):
+        s = Tree(hint + '.schema')
+
+        def mk_fields(it2, node2, key2):
+            def mk_field(it3):
+                cnt[0] += 1
+                return field_tree(it3, '%s.f%d' % (hint, cnt[0])), None
+            seq = SymSeq(hint + '.fields', it2.fresh(hint + '.fields', IntS), mk_field)
+            lst = SymList(seq, [])
+            lst.parent = s
+            return lst
+        s.schema = {'fields': mk_fields}
+        # input invariant (is_valid): a tabular resource descriptor has schema.fields
+        s.has['fields'] = True
+        s.init_has['fields'] = True
+        return s
+    t.schema = {'schema': mk_schema}
+    t.has['schema'] = True
+    t.init_has['schema'] = True
+    return t
+
+
+def mk_package2(it, hint='pkg', may_raise=False, res_may_raise=False):
+    """PackageWrapper with .pkg.descriptor['resources'] (opaque list of resource descriptor trees),
+    .pkg.resources[i].name (by position), iteration = stream of ResourceWrappers"""
+    import z3
+    from pyvc.api import Opaque, Stream, Tree, SymSeq, SymList, IntS, StrS, SV, term, wrap
+    pw = mk_package(it, hint, may_raise, res_may_raise)
+    pkg = pw.attrs['pkg']
+    desc = pkg.attrs['descriptor']
+    nres = it.fresh(hint + '.nres', IntS)
+    it.assume(nres >= 0)
+    RESNAME = z3.Function('resname', IntS, StrS)
+    cnt = [0]
+
+    def name_at(it_, i):
+        ti = term(i, IntS)
+        ok = z3.And(ti >= -nres, ti < nres)
+        if not it_.branch(ok):
+            it_.raise_('IndexError', 'list index out of range')
+        return wrap(RESNAME(z3.If(ti < 0, ti + nres, ti)))
+
+    def mk_resources(it_, node, key):
+        def mk_res(it2):
+            cnt[0] += 1
+            return resource_desc(it2, '%s.d%d' % (hint, cnt[0])), None
+        seq = SymSeq(hint + '.descs', it_.fresh(hint + '.descs', IntS), mk_res)
+
+        def at(it2, i):
+            nm = name_at(it2, i)
+            return resource_desc(it2, '%s.dat' % hint, name=nm)
+        seq.at = at
+        lst = SymList(seq, [])
+        lst.parent = desc
+        return lst
+    desc.schema = {'resources': mk_resources}
+    desc.has['resources'] = True
+    desc.init_has['resources'] = True
+    reslist = Opaque('reslist', hint + '.resources')
+
+    def res_getitem(it_, obj, i):
+        nm = name_at(it_, i)
+        r = Opaque('Resource', hint + '.resources[i]')
+        r.attrs['name'] = nm
+        return r
+    reslist.attrs['__getitem__'] = res_getitem
+    pkg.attrs['resources'] = reslist
+    pw.nres = nres
+    pw.RESNAME = RESNAME
+    return pw
+
+
+def selector(it, kind):
+    """symbolic `resources` argument of the given form and the spec of `match(name)` for it.
+    returns (value, want(package, name_term) -> z3 Bool)"""
+    import z3
+    from pyvc.api import sym_str, sym_int, str_seq, SymList, IntS
+    from pyvc import lib
+    if kind == 'none':
+        return None, (lambda pw, n: z3.BoolVal(True))
+    if kind == 'list':
+        sel = SymList(str_seq(it, 'sel'), [])
+        return sel, (lambda pw, n: z3.Contains(sel.prefix.term, z3.Unit(n)))
+    if kind == 'str':
+        sel = sym_str(it, 'selpat')
+        return sel, (lambda pw, n: lib.RE_FULLMATCH(sel.t, n))
+    if kind == 'int':
+        sel = sym_int(it, 'selidx')
+
+        def want(pw, n):
+            i = sel.t
+            return n == pw.RESNAME(z3.If(i < 0, i + pw.nres, i))
+        return sel, want
+    raise ValueError(kind)
+
+
+def tree_writes_under(events, root):
+    """TreeWrite / Append / TreeUpdate events on `root` or any node reachable upward to it"""
+    out = []
+    for e in events:
+        node = None
+        if e.kind in ('TreeWrite', 'TreeUpdate'):
+            node = e.node
+        elif e.kind == 'Append':
+            node = e.obj
+        else:
+            continue
+        n = node
+        while n is not None:
+            if n is root:
+                out.append(e)
+                break
+            n = getattr(n, 'parent', None)
+    return out
+
+
+def _b(x):
+    import z3
+    return z3.BoolVal(x) if isinstance(x, bool) else x
+
+
+def dispatch_symbolic(vc, relpath, qualpath, dotted, maker_name, maker_args, matched_ok, kinds=('none', 'list', 'str', 'int'),
+                      stream_loop=None, pkg_loop=None, yield_pkg_first=True, pre_loop_modes=None, passes=None,
+                      pkg_arg=None):
+    """shared proof of the S2 dispatch shape
+         [package phase: for resource in descriptor['resources']: if match(name): edit]
+         yield package.pkg ; for r in package: yield T(r, ..) if match(r.res.name) else r
+    Obligations, per selector form:  unselected => same stream object yielded, its rows not pulled, its descriptor not
+    written;  selected => matched_ok(it, env, r, yielded_event) ;  exactly one output per input stream; the package is the
+    first thing yielded; the resource stream is drained."""
+    import z3
+    from pyvc.api import real_function, LoopSpec, check, cover, yields_of, GenObj
+    fk = vc.under_contract(relpath, qualpath)
+    fname = qualpath[-1]
+    stream_loop = stream_loop or (fname + '#L0')
+    for kind in kinds:
+        for mode in ('unselected', 'selected'):
+            if kind == 'none' and mode == 'unselected':
+                continue
+            def thunk(it, kind=kind, mode=mode):
+                maker = real_function(it, dotted, maker_name)
+                sel, want = selector(it, kind)
+                args, kwargs = maker_args(it, sel)
+                func = it.call(maker, args, kwargs)
+                package = mk_package2(it)
+                if kind == 'int':
+                    i = sel.t
+                    it.path.info['allowed_exc'] = {'IndexError': z3.Not(z3.And(i >= -package.nres, i < package.nres))}
+
+                def at_start(it, env, r):
+                    it.path.info['in_iter'] = True
+                    m = want(package, r.attrs['res'].attrs['name'].t)
+                    it.assume(m if mode == 'selected' else z3.Not(m))
+                    return r
+
+                def at_end(it, env, r, events):
+                    ys = yields_of(events)
+                    tag = '%s,%s' % (kind, mode)
+                    if len(ys) != 1:
+                        check(it, 'one-output-per-resource[%s]' % tag, False)
+                        return
+                    check(it, 'one-output-per-resource[%s]' % tag, True)
+                    y = ys[0]
+                    if mode == 'unselected':
+                        check(it, 'unselected-same-object[%s]' % tag, y.obj is r)
+                        check(it, 'unselected-rows-not-pulled[%s]' % tag, r.stream.drained is False and
+                              not [e for e in events if e.kind in ('Drain', 'Pull', 'YieldFrom') and getattr(e, 'src', None) in (r, r.stream)])
+                        check(it, 'unselected-descriptor-untouched[%s]' % tag,
+                              not tree_writes_under(events, r.attrs['res'].attrs['descriptor']))
+                    else:
+                        check(it, 'selected-transformed[%s]' % tag, _b(matched_ok(it, env, r, y, events)))
+                    cover(it, 'iter-reachable[%s]' % tag)
+                it.loops[stream_loop] = LoopSpec(at_start=at_start, at_end=at_end, modes=('iter', 'exit'),
+                                                 at_exit=lambda it, env: it.path.info.__setitem__('exit_mark', len(it.path.events)))
+                if pkg_loop:
+                    def p_start(it, env, rd):
+                        m = want(package, rd.children['name'].t)
+                        it.assume(z3.Not(m))
+                        return rd
+
+                    def p_end(it, env, rd, events):
+                        check(it, 'pkgphase-unselected-descriptor-untouched[%s]' % kind, not tree_writes_under(events, rd))
+                        cover(it, 'pkgphase-iter-reachable[%s]' % kind)
+                    if mode == 'unselected':
+                        it.loops[pkg_loop] = LoopSpec(at_start=p_start, at_end=p_end)
+                    else:
+                        it.loops[pkg_loop] = LoopSpec(modes=('exit',))
+                for lbl, ls in (passes or {}).items():
+                    it.loops[lbl] = ls
+                g = it.call(func, [package if pkg_arg is None else pkg_arg(it, package)])
+                it.run_generator(g)
+                ys = yields_of(it.path.events)
+                if yield_pkg_first:
+                    check(it, 'first-yield-is-package[%s]' % kind, len(ys) >= 1 and ys[0].obj is package.attrs['pkg'])
+                    check(it, 'only-package-outside-loop[%s]' % kind, len(ys) == 1)
+                check(it, 'drains-package[%s]' % kind, package.stream.drained is True)
+            paths = vc.explore(fk, thunk, min_paths=2)
+            expect_no_raise_or_same(vc, fk, paths)
+    return fk
+
+
+def gen_of(names, arg_ok=None):
+    """matched_ok: the yielded object is an un-run call of one of the generator functions `names` over resource r"""
+    def ok(it, env, r, y, events):
+        from pyvc.api import GenObj
+        g = y.obj
+        if not isinstance(g, GenObj) or g.fn.name not in names:
+            return False
+        allargs = list(g.args) + list(g.kwargs.values())
+        if not any(a is r for a in allargs):
+            return False
+        if r.stream.drained or [e for e in events if e.kind in ('Drain', 'Pull') and getattr(e, 'src', None) in (r, r.stream)]:
+            return False
+        return True if arg_ok is None else arg_ok(it, env, r, g)
+    return ok
